@@ -165,6 +165,9 @@ func scanFile(r io.Reader) (*machoMarkers, error) {
 			f.loadCsStart = cmdPos
 		}
 	}
+	if f.linkEditHdrPos == 0 {
+		return nil, errors.New("mach-o file has no __LINKEDIT segment to hold a signature")
+	}
 	linkEditEnd := int64(f.linkEditHdr.Offset) + int64(f.linkEditHdr.Filesz)
 	if f.sigLen != 0 {
 		f.codeSize = f.sigStart
